@@ -63,6 +63,16 @@ def run_extras(prop, tier, seed, modules):
     return out
 
 
+def run_bounded(name, tier, seed, timeout=1500):
+    """run one bounded stand-in of native/bounded.py; -> dict for evidence (+ 'violations')"""
+    out = native([os.path.join(ROOT, "native", "bounded.py"), name, tier, str(seed)], timeout=timeout)
+    try:
+        return json.loads(out.stdout.strip().split("\n")[-1])
+    except Exception:
+        return {"name": name, "evaluations": 0, "distinct_nontrivial": 0, "rule": "bounded check crashed",
+                "samples": [], "violations": [{"key": "crash", "detail": (out.stderr or out.stdout)[-1500:]}]}
+
+
 def match_known(prop, qualname, oname, detail, kf):
     """a refuted obligation is a known finding iff an entry lists this function
     and clause and the replayed witness is of the listed class"""
